@@ -27,12 +27,14 @@ func init() {
 				"a value implementing error (Template.recover does e.(error)). (C02.errs) no error returned to parser code is dropped. (C02.eof) every lexer loop consumes input on each round and has " +
 				"an exit for end of input. (C02.struct) a missing {{end}} (EOF inside itemList) and a surplus {{end}}/{{else}}/{{content}} at top level reach a no-return error, unexpected() " +
 				"reports late extends/import, and action() accepts neither. (C02.drain) Set.parse defers Template.recover before the lexer goroutine starts, recover drains the lexer before dropping " +
-				"it, the goroutine closes its channel on every exit, and a state function only ends the scan through errorf or after emitting EOF. (C02.index, continued) the node constructors (constructors.go) are covered too; the named non-emptiness invariants cover index 0 only.",
+				"it, the goroutine closes its channel on every exit, and a state function only ends the scan through errorf or after emitting EOF. (C02.index, continued) the node constructors (constructors.go) are covered too; the named non-emptiness invariants cover index 0 only. (C02.errfmt) every printf-like call of the module (fmt's and the module's own wrappers, found by what they forward their format to) passes as format a constant, the caller's own format parameter, or a string built by Sprintf from a constant format whose string operands are that parameter or have their '%' doubled — a template's name or source never acts as a format.",
 			NotDecided:  "absence of other runtime panics (index/slice arithmetic in lexText/lexLeftDelim/lexRightDelim); termination across state transitions; unbounded recursion on cyclic extends; error message contents.",
 			Assumptions: []string{"character-class predicates (isSpace, isAlphaNumeric, strings.IndexRune(valid, r) >= 0) are false for eof (-1)"},
 			Trusted:     commonTrusted,
 		},
 		Mutants: []Mutant{
+			{Name: "template name spliced into the format of parse errors (original defect)", File: "parse.go", Old: "strings.Replace(t.ParseName, \"%\", \"%%\", -1)", New: "t.ParseName", Rule: "C02.errfmt"},
+			{Name: "lexer error text used as a format", File: "parse.go", Old: "func (t *Template) error(err error) {\n\tt.errorf(\"%s\", err)", New: "func (t *Template) error(err error) {\n\tt.errorf(err.Error())", Rule: "C02.errfmt"},
 			{Name: "closing comment marker searched from the opening marker (agent seed C02/1)", File: "lex.go", Old: "\tl.pos += Pos(len(l.leftComment))\n\ti := strings.Index(l.input[l.pos:], l.rightComment)", New: "\ti := strings.Index(l.input[l.pos:], l.rightComment)", Rule: "C02.struct"},
 			{Name: "peek clobbers width (original defect)", File: "lex.go", Old: "\twidth := l.width\n\tr := l.next()\n\tl.backup()\n\tl.width = width // keep describing the last consumed rune, so backup() stays valid after peek()\n\treturn r", New: "\tr := l.next()\n\tl.backup()\n\treturn r", Rule: "C02.width"},
 			{Name: "trim-marker test indexes one byte past its length check (agent seed C02/3)", File: "lex.go", Old: "\t\t\t\tif strings.HasPrefix(l.input[l.pos+ld:], leftTrimMarker) {", New: "\t\t\t\tif s := l.input[l.pos+ld:]; len(s) >= 1 && s[0] == '-' && isSpace(rune(s[1])) {", Rule: "C02.index"},
@@ -63,6 +65,7 @@ func runC02(c *an.Ctx) {
 	c02struct(c)
 	c02drain(c)
 	c02index(c)
+	c02errfmt(c)
 }
 
 // ------------------------------------------------------------------------------------------- C02.width
